@@ -62,6 +62,18 @@ def engine(cfg=0):
         return e
     if 'e' not in _ENG:
         from pero_ocr.layout_engines.cnn_layout_engine import LayoutEngine
+        try:
+            # the real constructors (LayoutEngine -> TorchParseNet) with only the loading of the network file replaced
+            import contextlib
+            import io
+            import unittest.mock
+            import torch
+            from pero_ocr.layout_engines import torch_parsenet
+            with unittest.mock.patch.object(torch_parsenet.torch.jit, 'load', lambda *a, **kw: None), contextlib.redirect_stdout(io.StringIO()):
+                _ENG['e'] = LayoutEngine('stub-model', torch.device('cpu'))
+            return _ENG['e']
+        except Exception:  # noqa  (fall back to setting the constructor's attributes by hand)
+            pass
         e = object.__new__(LayoutEngine)
         d = {k: v.default for k, v in inspect.signature(LayoutEngine.__init__).parameters.items() if v.default is not inspect.Parameter.empty}
         e.line_end_weight = d['line_end_weight']
@@ -271,15 +283,22 @@ def adaptive_parsenet(init_ds=4):
     around a renderer that draws the maps of the current page description at whatever resolution is requested"""
     import types
     from pero_ocr.layout_engines.torch_parsenet import TorchParseNet
-    pn = object.__new__(TorchParseNet)
-    d = {k: v.default for k, v in inspect.signature(TorchParseNet.__init__).parameters.items() if v.default is not inspect.Parameter.empty}
-    pn.max_megapixels = d['max_mp']
-    pn.detection_threshold = d['detection_threshold']
-    pn.adaptive_downsample = d['adaptive_downsample']
-    pn.init_downsample = pn.last_downsample = init_ds
-    pn.downsample_line_pixel_adapt_threshold = 100
-    pn.min_line_processing_height, pn.max_line_processing_height, pn.optimal_line_processing_height = 9, 15, 12
-    pn.min_downsample, pn.max_downsample = 1, 8
+    try:
+        import unittest.mock
+        import torch
+        from pero_ocr.layout_engines import torch_parsenet
+        with unittest.mock.patch.object(torch_parsenet.torch.jit, 'load', lambda *a, **kw: None):
+            pn = TorchParseNet('stub-model', torch.device('cpu'), downsample=init_ds)
+    except Exception:  # noqa  (fall back to setting the constructor's attributes by hand)
+        pn = object.__new__(TorchParseNet)
+        d = {k: v.default for k, v in inspect.signature(TorchParseNet.__init__).parameters.items() if v.default is not inspect.Parameter.empty}
+        pn.max_megapixels = d['max_mp']
+        pn.detection_threshold = d['detection_threshold']
+        pn.adaptive_downsample = d['adaptive_downsample']
+        pn.init_downsample = pn.last_downsample = init_ds
+        pn.downsample_line_pixel_adapt_threshold = 100
+        pn.min_line_processing_height, pn.max_line_processing_height, pn.optimal_line_processing_height = 9, 15, 12
+        pn.min_downsample, pn.max_downsample = 1, 8
     pn.truth = []
     pn.rot = 0
 
@@ -319,7 +338,7 @@ def check_adaptive(case, ctx):
         ctx.reseed()
         res = eng.detect(img, rot=rot)
     ctx.executed(len(hist))
-    ctx.state(('adaptive', tuple(hist), rot, cfg, round(float(eng.parsenet.last_downsample), 3)))
+    ctx.state(('adaptive', tuple(hist), rot, cfg, round(float(getattr(eng.parsenet, 'last_downsample', 0)), 3)))
     p_list, b_list, h_list, t_list = res
     truth = page_lines(hist[-1])
     desc = (f'pages with print sizes {hist} (ascender px) analysed in turn, rotation {rot}, adaptive={eng.parsenet.adaptive_downsample}, '
@@ -343,10 +362,10 @@ def check_adaptive(case, ctx):
         if abs(h[0] - asc) > 0.15 * asc + 8 or abs(h[1] - dsc) > 0.15 * dsc + 8:
             ctx.violation('heights-match', f'{K}/heights-off', f'{desc}: heights {list(map(float, h))}, painted ({asc}, {dsc})')
             return
-    ctx.outcome(('adaptive', round(float(eng.parsenet.last_downsample), 2)))
+    ctx.outcome(('adaptive', round(float(getattr(eng.parsenet, 'last_downsample', 0)), 2)))
     if len(hist) > 1 and hist[-1] != hist[-2]:
         ctx.nontrivial(('adaptive', tuple(hist), rot), 'print-size-changes-between-pages')
-    if abs(float(eng.parsenet.last_downsample) - 4) > 1e-9:
+    if abs(float(getattr(eng.parsenet, 'last_downsample', 0)) - 4) > 1e-9:
         ctx.tag('adaptive-factor-changed')
 
 
